@@ -14,6 +14,10 @@ package withstack
 //@ method (*withStack).Unwrap
 //@   props C07 C10 C14
 //@   ensures result == self.cause
+//@ method (*withStack).SafeFormatError
+//@   props C09
+//@   requires p != nil
+//@   ensures result == self.cause
 
 //@ func WithStackDepth
 //@   props C10 C07 C16
@@ -82,3 +86,14 @@ package withstack
 //@   props C11 C15
 //@   ensures len(st) == 0 ==> !ok
 //@   ensures len(st) > 0 ==> (exists s string :: file == psFile(s) && line == psLine(s) && fn == psFn(s) && ok == psOk(s))
+
+// C15: one entry of the printed stack: the function name is the line itself; the file/line pair
+// on the following tab-indented line is split at the LAST colon (file paths may contain colons)
+//@ func parsePrintedStackEntry
+//@   props C15
+//@   requires 0 <= i && i < len(lines)
+//@   ensures fnName == lines[i]
+//@   ensures (i < len(lines) - 1 && hasPrefix(lines[i+1], "\t")) ==> newI == i + 1
+//@   ensures !(i < len(lines) - 1 && hasPrefix(lines[i+1], "\t")) ==> newI == i && file == "" && line == 0
+//@   ensures (newI == i + 1 && lastIdxByte(trimSpace(lines[i+1]), 58) >= 0) ==> file == trimSpace(lines[i+1])[0:lastIdxByte(trimSpace(lines[i+1]), 58)]
+//@   ensures (newI == i + 1 && lastIdxByte(trimSpace(lines[i+1]), 58) < 0) ==> file == trimSpace(lines[i+1]) && line == 0
